@@ -18,6 +18,9 @@ PROFILES = {
     'shipped_sync': lambda rnd: sp.gen_shipped(rnd, dyn='syn'),
     'shipped_sto': lambda rnd: sp.gen_shipped(rnd, dyn='sto'),
     'queue': lambda rnd: sp.gen_script_queue(rnd),
+    'rates_sto': lambda rnd: sp.gen_rates(rnd, 'sto'),
+    'rates_syn': lambda rnd: sp.gen_rates(rnd, 'syn'),
+    'one_step': lambda rnd: dict(sp.gen_shipped(rnd, dyn='syn', extreme=rnd.random() < 0.3), maxT=2.0),
     'compete8': lambda rnd: sp.gen_shipped(rnd, classes=['SIR', 'SEIR', 'SIR_FixedRecovery', 'SIR_VariableInfection', 'Opinion', 'SIS'],
                                           dyn=rnd.choice(['syn', 'syn', 'sto']), extreme=True, oracles=('clock', 'member', 'loci', 'diagram', 'forest'),
                                           net=sp.rand_net(rnd, 3, 7, kind=rnd.choice(['star', 'complete', 'er', 'path']))),
